@@ -303,7 +303,11 @@ def get_double(value: FloatArgType, xsd_version: str | None = None) -> float:
     elif math.isnan(value):
         return math.nan
 
-    return float(value)
+    try:
+        return float(value)
+    except OverflowError:
+        # an integer beyond the range of xs:double
+        return math.inf if value > 0 else -math.inf
 
 
 def numeric_equal(op1: MathArgType, op2: MathArgType) -> bool:
